@@ -63,6 +63,37 @@ mutual
       p.seg c (a.take p.dim) (b.take p.dim) :: Sp.segs c ps (a.drop p.dim) (b.drop p.dim)
 end
 
+/-- `SO2StateSpace::interpolate` (with the `>=` of the F4 fix). -/
+def so2Interp (a b t : Float) : Float :=
+  let diff := b - a
+  if Float.abs diff <= pi then a + diff * t
+  else
+    let diff := if diff > 0.0 then 2.0 * pi - diff else -2.0 * pi - diff
+    let v := a - diff * t
+    if v >= pi then v - 2.0 * pi else if v < -pi then v + 2.0 * pi else v
+
+/-- `RealVectorStateSpace::interpolate`. -/
+def rvInterp (t : Float) : List Float → List Float → List Float
+  | x :: xs, y :: ys => (x + (y - x) * t) :: rvInterp t xs ys
+  | _, _ => []
+
+mutual
+  /-- `interpolate(from, to, t)` on the flat list of reals (compound: component-wise). -/
+  def Sp.interp (t : Float) : Sp → List Float → List Float → List Float
+    | .rv d _, a, b => rvInterp t (a.take d) (b.take d)
+    | .so2 _, a, b => [so2Interp (a.headD 0.0) (b.headD 0.0) t]
+    | .cmpd ps, a, b => Sp.interps t ps a b
+  def Sp.interps (t : Float) : List Sp → List Float → List Float → List Float
+    | [], _, _ => []
+    | p :: ps, a, b =>
+      p.interp t (a.take p.dim) (b.take p.dim) ++ Sp.interps t ps (a.drop p.dim) (b.drop p.dim)
+end
+
+/-- the geometric predicate: a state is INVALID iff every real lies in its `[lo, hi]` interval. -/
+def inBox : List Float → List (Float × Float) → Bool
+  | x :: xs, (lo, hi) :: bs => lo <= x && x <= hi && inBox xs bs
+  | _, _ => true
+
 structure St where
   /-- `some sp`: the model computes `n`; `none`: `n` comes from `hint` -/
   sp : Option Sp
@@ -70,6 +101,8 @@ structure St where
   ctx : Ctx
   val : Validator
   inv : List Nat := []
+  /-- `some box`: the predicate is geometric (`invalid box …`) -/
+  box : Option (List (Float × Float)) := none
   hintN : Nat := 0
   hintPath : Bool := true
   cv : Nat := 0
@@ -116,6 +149,8 @@ def init (ts : List String) : Option St :=
     | "dubinssym", [_] => mk none 3 .dubins
     | "rs", [_] => mk none 3 .reedsShepp
     | "owen", [_] => mk none 4 .dubins3D
+    | "vana", [_] => mk none 5 .dubins3D
+    | "vanaowen", [_] => mk none 5 .dubins3D
     | _, _ => none
   | _ => none
 
@@ -138,8 +173,36 @@ def step (st : St) (ts : List String) : St × String :=
   match ts with
   | "invalid" :: "idx" :: rest =>
     match parseNats? rest with
-    | some js => ({ st with inv := js }, "ok")
+    | some js => ({ st with inv := js, box := none }, "ok")
     | none => (st, "bad-op")
+  | "invalid" :: "box" :: rest =>
+    match rest.mapM parseFloatBits?, st.sp with
+    | some xs, some _ =>
+      if xs.length != 2 * st.nreals then (st, "bad-op")
+      else
+        let rec pairs : List Float → List (Float × Float)
+          | lo :: hi :: r => (lo, hi) :: pairs r
+          | _ => []
+        ({ st with box := some (pairs xs) }, "ok")
+    | _, _ => (st, "bad-op")
+  | "gms" :: c :: e :: a :: sz :: rest =>
+    match c.toNat?, sz.toNat?, state? st rest with
+    | some count, some size, some (_, rest2) =>
+      match state? st rest2 with
+      | some (_, []) =>
+        if (e != "0" && e != "1") || (a != "0" && a != "1") || count ≥ 4294967296 || size > 100000 then (st, "bad-op")
+        else
+          let r := getMotionStates count (e == "1") (a == "1") size
+          let lab : Slot → String
+            | .start => "S"
+            | .goal => "G"
+            | .frac j c => s!"{j}/{c}"
+          let rest := List.replicate (r.newSize - r.written.length) (if a == "1" then "0" else "u")
+          let slots := r.written.map lab ++ rest
+          let sl := if slots.isEmpty then "-" else ",".intercalate slots
+          (st, s!"ret={r.returned} size={r.newSize} slots={sl} amb=0")
+      | _ => (st, "bad-op")
+    | _, _, _ => (st, "bad-op")
   | ["hint", k] =>
     match k.toNat? with
     | some k => ({ st with hintN := k, hintPath := true }, "ok")
@@ -175,13 +238,23 @@ def step (st : St) (ts : List String) : St × String :=
           let n := match st.sp with
             | some sp => sp.seg st.ctx a b
             | none => st.hintN
-          let v : Nat → Bool := fun j => !st.inv.contains j
+          -- scripted predicate: an index set, or a box evaluated on the model's own interpolants
+          let invl : List Nat := match st.box, st.sp with
+            | some bx, some sp =>
+              let idx := if n == 0 then [0] else (List.range' 1 n)
+              idx.filter (fun j =>
+                if j == n then inBox b bx else inBox (sp.interp (Float.ofNat j / Float.ofNat n) a b) bx)
+            | _, _ => st.inv
+          let v : Nat → Bool := fun j => !invl.contains j
+          let invs := match st.box with
+            | some _ => " inv=" ++ qstr invl
+            | none => ""
           let r := if op == "cm2" then checkMotion2 st.val st.hintPath n v else checkMotion3 st.val st.hintPath n v
           let st' := { st with cv := st.cv + r.dValid, ci := st.ci + r.dInvalid }
           let vb := if r.verdict then "1" else "0"
           let cnt := s!"cnt={st.cv}/{st.ci}->{st'.cv}/{st'.ci}"
           if op == "cm2" then
-            (st', s!"v={vb} n={n} q={qstr r.queries} {cnt} amb=0")
+            (st', s!"v={vb} n={n} q={qstr r.queries} {cnt} amb=0{invs}")
           else
             let lv := match r.failAt with
               | some j => fracBits j n
@@ -189,7 +262,7 @@ def step (st : St) (ts : List String) : St × String :=
             let lvs := if op == "cm3n" then "null" else match r.failAt with
               | some _ => "eq"
               | none => "untouched"
-            (st', s!"v={vb} n={n} lv={lv} lvs={lvs} q={qstr r.queries} {cnt} amb=0")
+            (st', s!"v={vb} n={n} lv={lv} lvs={lvs} q={qstr r.queries} {cnt} amb=0{invs}")
         | _ => (st, "bad-op")
       | none => (st, "bad-op")
   | _ => (st, "bad-op")
